@@ -455,9 +455,67 @@ func TestC18OverLimit(t *testing.T) {
 		// packet sizes: full chunks, with a generated smaller first packet so the crossing point moves
 		first := rapid.SampledFrom([]int{p2psim.MaxDataChunk, 1, 4096, p2psim.MaxDataChunk / 2}).Draw(rt, "first")
 		interleave := rapid.Bool().Draw(rt, "interleave") // a complete small message on another topic half way
-		c.Desc("overlimit topic=%s first=%d interleave=%v(%s)", lib.Topic_name[int32(topic)], first, interleave, lib.Topic_name[int32(other)])
+		// which packet crosses the limit: a full packet without EOF, or a (shorter) packet WITH EOF - the
+		// shape Send() gives an over-limit message: full packets and a short last one
+		eofCrosses := rapid.Bool().Draw(rt, "crossing-packet-has-EOF")
+		crossBy := rapid.SampledFrom([]int{1, 2, 1000, 1 << 30}).Draw(rt, "cross-by")
+		c.Desc("overlimit topic=%s first=%d interleave=%v(%s) crossing packet EOF=%v by<=%d", lib.Topic_name[int32(topic)], first, interleave, lib.Topic_name[int32(other)], eofCrosses, crossBy)
 		c.Class("bad=overlimit-accumulate")
+		c.ClassIf(eofCrosses, "limit-crossed-by-EOF-packet")
 
+		// 1 case in 4: the over-limit message goes through the honest Send path of a second real node
+		// (SendTo -> split into full packets + a short EOF packet) instead of hand-made packets
+		if rapid.IntRange(0, 3).Draw(rt, "via-honest-send") == 0 || os.Getenv("C18_FORCE_VIA_SEND") != "" {
+			// the last packet Send() produces carries (limit mod chunk) + over bytes while that fits a chunk:
+			// up to tail it is the EOF packet that crosses the limit, beyond it a full EOF-less packet does
+			tail := p2psim.MaxDataChunk - p2psim.MaxMessageSize%p2psim.MaxDataChunk
+			over := rapid.SampledFrom([]int{1, 1, 2, 12801, tail / 2, tail, tail + 1, p2psim.MaxDataChunk, p2psim.MaxDataChunk + 1}).Draw(rt, "send-over")
+			if v, err := strconv.Atoi(os.Getenv("C18_FORCE_VIA_SEND")); err == nil && v > 0 {
+				over = v
+			}
+			c.Desc("via honest SendTo: message of limit+%d bytes", over)
+			c.Class("overlimit-via-honest-send")
+			c.ClassIf(over <= tail, "send:limit-crossed-by-EOF-packet")
+			dir, _ := os.MkdirTemp("", "c18o-")
+			defer os.RemoveAll(dir)
+			a, b := p2psim.NewNode(dir+"/a", 1, 1), p2psim.NewNode(dir+"/b", 2, 1)
+			defer a.Stop()
+			defer b.Stop()
+			if err := p2psim.Join(a, b); err != nil {
+				if errors.Is(err, p2psim.ErrTimeout) || p2psim.IsTimeoutErr(err) {
+					inconclusive(rt, rec, "join: "+err.Error())
+				}
+				rt.Fatalf("join: %v", err)
+			}
+			msg, bz := msgOfSize(seed, 3, p2psim.MaxMessageSize+over)
+			if err := b.SendTo(a.Pub, topic, msg); err != nil {
+				rt.Fatalf("SendTo: %v", err)
+			}
+			var bad string
+			ok := p2psim.WaitFor(2*teardownBudget, func() bool {
+				for _, r := range a.Drain() {
+					bad = fmt.Sprintf("a message of %d bytes (limit %d, sent %d) was delivered on %s", len(r.Msg), p2psim.MaxMessageSize, len(bz), lib.Topic_name[int32(r.Topic)])
+					return true
+				}
+				return !a.Has(b.Pub)
+			})
+			if bad != "" {
+				rt.Fatalf("over-limit message through the honest Send path: %s; connection still up: %v", bad, a.Has(b.Pub))
+			}
+			wallClock(rt, rec, a)
+			wallClock(rt, rec, b)
+			if !ok {
+				inconclusive(rt, rec, "over-limit SendTo: neither teardown nor delivery")
+			}
+			if !a.Log.Contains("max message size") {
+				inconclusive(rt, rec, "connection ended for another reason than the size cap: "+a.Log.PeerErrors())
+			}
+			if rest := a.Drain(); len(rest) != 0 {
+				rt.Fatalf("after the teardown an inbox holds a %d-byte message", len(rest[0].Msg))
+			}
+			c.Done(true)
+			return
+		}
 		dir, _ := os.MkdirTemp("", "c18o-")
 		defer os.RemoveAll(dir)
 		n := p2psim.NewNode(dir, 1, 1)
@@ -488,6 +546,12 @@ func TestC18OverLimit(t *testing.T) {
 			data := chunk
 			if i == 0 {
 				data = chunk[:first]
+			}
+			if eofCrosses && sent+len(data) > p2psim.MaxMessageSize {
+				k := min(p2psim.MaxMessageSize-sent+crossBy, len(chunk))
+				_ = rp.SendPacket(int32(topic), true, chunk[:k])
+				crossedAt = i
+				break
 			}
 			if interleave && i == 100 && other != topic {
 				small := fill(seed, 2, 1000)
